@@ -330,10 +330,34 @@ def run(rep, tier):
     pp = prog.fn(nx.N + "::kml::clauses::plan_pass")
     rep.saw(pp, len(pp.events))
     passes = {}
+
+    def _ret_consts(bl):
+        """constant values assigned to the return place in the blocks of one arm (constant arithmetic folded)"""
+        def cint(o):
+            k_ = (o.get("k") or {}) if isinstance(o, dict) else {}
+            return int(k_["int"]) if k_.get("int") is not None else None
+        folded = {}
+        for b in bl:
+            for st in pp.stmts(b):
+                if st[0] == "A" and st[2]["k"] == "bin" and not st[1].get("p"):
+                    a_, b_ = cint(st[2]["a"]), cint(st[2]["b"])
+                    op = st[2]["op"].replace("WithOverflow", "").replace("Unchecked", "")
+                    if a_ is not None and b_ is not None and op in ("Add", "Sub", "Mul"):
+                        folded[st[1]["l"]] = {"Add": a_ + b_, "Sub": a_ - b_, "Mul": a_ * b_}[op]
+        out = set()
+        for b in bl:
+            for st in pp.stmts(b):
+                if st[0] == "A" and st[1]["l"] == 0 and not st[1].get("p") and st[2]["k"] == "use":
+                    c_ = cint(st[2]["o"])
+                    if c_ is None:
+                        pl = core.op_place(st[2]["o"])
+                        if pl is not None and pl.l in folded:
+                            c_ = folded[pl.l]
+                    out.add(c_)
+        return out
     for v, bl in arm_regions(pp, MCL).items():
-        vals = {int(st[2]["o"]["k"]["int"]) for b in bl for st in pp.stmts(b)
-                if st[0] == "A" and st[1]["l"] == 0 and st[2]["k"] == "use" and isinstance(st[2]["o"], dict) and (st[2]["o"].get("k") or {}).get("int") is not None}
-        if len(vals) == 1:
+        vals = _ret_consts(bl)
+        if len(vals) == 1 and None not in vals:
             passes[v] = vals.pop()
     # a clause "creates" when its arm of clauses::apply reaches the staging of a new row or the late binding of a handle
     ap = prog.fn(nx.N + "::kml::clauses::apply")
